@@ -34,7 +34,7 @@ size_t ZSTD_compressSequences(ZSTD_CCtx* cctx, void* dst, size_t dstCapacity,
 __CPROVER_requires(__CPROVER_is_fresh(cctx, sizeof(ZSTD_CCtx)))
 __CPROVER_requires(dstCapacity <= ((size_t)1 << 40) && __CPROVER_is_fresh(dst, dstCapacity))
 __CPROVER_requires(srcSize <= ((size_t)1 << 40) && __CPROVER_is_fresh(src, srcSize))
-__CPROVER_assigns(__CPROVER_object_whole(cctx), __CPROVER_object_whole(dst))
+__CPROVER_assigns(__CPROVER_object_whole(cctx), __CPROVER_object_whole(dst), ZSTD_VERIF_GHOST_FRAME)
 __CPROVER_ensures(ZSTD_isError(__CPROVER_return_value) || __CPROVER_return_value <= dstCapacity)
 ;
 
